@@ -39,7 +39,7 @@ ASSUMPTIONS = [
     'parse_table(json, ids) is not required to refuse unknown ids',
 ]
 ANCHORS = ['Table.from_hdf5', 'parse_biom_table', 'direct_parse_key', 'direct_slice_data', '_direct_slice_data_sparse_obs', '_direct_slice_data_sparse_samp', 'get_axis_indices', '_subset_table']
-REQUIRED = ['list_category_with_null_entries', 'hdf5_files_with_stored_zeros', 'empty_request_answered', 'hdf5_default', 'hdf5_no_metadata', 'json_parse_table',
+REQUIRED = ['ids_files_with_crlf_line_ends', 'list_category_with_null_entries', 'hdf5_files_with_stored_zeros', 'empty_request_answered', 'hdf5_default', 'hdf5_no_metadata', 'json_parse_table',
             'cli_hdf5', 'cli_json', 'cli_json_serialisations_agree',
             'unknown_refused_hdf5', 'unknown_refused_hdf5_nomd',
             'unknown_refused_cli', 'other_axis_vectors_dropped',
@@ -256,8 +256,13 @@ def run_case(ctx, index):
                         ctx.count('other_axis_vectors_dropped')
                     nt = proper and did_drop
                 elif variant == 'cli-hdf5':
-                    with open(idp, 'w', encoding='utf-8') as f:
-                        f.write('#comment line\n' + '\n'.join(sub) + '\n')
+                    with open(idp, 'w', encoding='utf-8', newline='') as f:
+                        eol = '\n'
+                        if index % 3 == 1 and not any('\r' in i
+                                                      for i in sub):
+                            eol = '\r\n'    # as another platform writes it
+                            ctx.count('ids_files_with_crlf_line_ends')
+                        f.write('#comment line' + eol + eol.join(sub) + eol)
                     if os.path.exists(outp):
                         os.remove(outp)
                     rr = _cli(['subset-table', '-i', h5p, '-a', axis, '-s', idp,
